@@ -250,13 +250,10 @@ class ModuleAstInfo:
             The iterable of lines in such blocks.
         """
         for node in nodes_of_class(ast_node, ast.If):
-            if _is_main(node):
-                start, end = scope_line_range(node)
-                yield from range(start, end + 1)
-                continue
-
-            if _is_type_checking(node):
-                start, end = scope_line_range(node)
+            if _is_main(node) or _is_type_checking(node):
+                # Only the guarded block is excluded; an else branch does run.
+                start = scope_line_range(node)[0]
+                end = scope_line_range(node.body[-1])[1]
                 yield from range(start, end + 1)
 
     @classmethod
